@@ -102,6 +102,16 @@ struct IntSlot : ISlot {
    PAIR_DEST
    std::string json() const override { return std::to_string(v); }
 };
+// other integral destination types: the projection is the decimal text (the values do not fit the checker's integers)
+template <typename T> struct WideSlot : ISlot {
+   T v;
+   explicit WideSlot(const vj::Value& init) : v(0) {
+      const std::string t = init.bytes();
+      if (!t.empty()) { if (t[0] == '-') v = static_cast<T>(std::stoll(t)); else v = static_cast<T>(std::stoull(t)); }
+   }
+   TypedArgBase* dest(const std::string& n) override { return celma::prog_args::destination(v, n); }
+   std::string json() const override { return codes(std::to_string(v)); }
+};
 // double destination: the projection is the number of quarters when the value is an exact multiple of 1/4
 struct DblSlot : ISlot {
    double v;
@@ -244,6 +254,11 @@ static std::unique_ptr<ISlot> makeSlot(const std::string& kind, const vj::Value&
    if (kind == "valint") return std::make_unique<ValIntSlot>(init);
    if (kind == "flag") return std::make_unique<FlagSlot>(init);
    if (kind == "int") return std::make_unique<IntSlot>(init);
+   if (kind == "u64") return std::make_unique<WideSlot<std::uint64_t>>(init);
+   if (kind == "i64") return std::make_unique<WideSlot<std::int64_t>>(init);
+   if (kind == "u32") return std::make_unique<WideSlot<unsigned int>>(init);
+   if (kind == "u16") return std::make_unique<WideSlot<unsigned short>>(init);
+   if (kind == "i16") return std::make_unique<WideSlot<short>>(init);
    if (kind == "str") return std::make_unique<StrSlot>(init);
    if (kind == "dbl") return std::make_unique<DblSlot>(init);
    if (kind == "level") return std::make_unique<LevelSlot>(init);
